@@ -47,8 +47,14 @@ def run(ctx):
     memo = {}
     service = []
     perflow = []
-    for b in bodies:
-        srcs = [(blk, c, t) for (blk, c, t) in b.calls() if c.name in SOURCES and b.innermost_loop(blk)]
+    for b0 in bodies:
+        if not any(c.name in SOURCES for (_, c, _) in b0.calls()):
+            continue
+        # helpers of the same crate that the loop body calls are spliced in: an error that a helper propagates (`?`) out of the loop is
+        # judged by what fails *inside* the helper; calls into other crates stay calls
+        crate = b0.defp.split("::", 1)[0]
+        b = prog.flat(b0.defp, stop=lambda cb, crate=crate: not cb.defp.startswith(crate + "::"), key="same-crate")
+        srcs = [(blk, c, t) for (blk, c, t) in b.calls() if c.name in SOURCES and b.innermost_loop(blk) and b.origin[blk] == b0.defp]
         if not srcs:
             continue
         has_table = any("LruCache<" in l["ty"].get("s", "") and l.get("user") and not l["ty"]["s"].startswith("&") for l in b.locals)
@@ -90,8 +96,7 @@ def run(ctx):
             p = op_place(t["d"])
             causes = []
             if p is not None:
-                _, calls, _ = b.slice_back([p[0]], stop_call=lambda cc: cc.name not in ("Try::branch", "Result::map_err", "IntoFuture::into_future", "Future::poll", "Pin::new_unchecked", "core::future::get_context", "Pin::new"))
-                causes = [(cb, cc, ct) for (cb, cc, ct) in calls if cc.name not in ("Try::branch", "Result::map_err", "IntoFuture::into_future", "Future::poll", "Pin::new_unchecked", "core::future::get_context", "Pin::new")]
+                causes = failure_causes(b, p[0])
             # `x.await?` where x is not the result of a call made here but a future that *arrived as data* from the loop's own
             # source (quinn's `Incoming`, a JoinHandle, ...): the exit is decided by that per-flow future, not by the source
             carried = _awaited_carried_future(b, p[0], src_results) if p is not None else None
@@ -103,9 +108,15 @@ def run(ctx):
                 continue
             # which value of the switch leaves?
             leaving_vals = [v for v, tgt in t["arms"] if tgt == y] + (["otherwise"] if t["otherwise"] == y else [])
-            verdict, why = classify_exit(b, body, causes, src_results, leaving_vals, t)
-            cname = _shown(b, causes[0][1]) if causes else "?"
-            ctx.ob("L1", b.defp, f"exit:{src}:{cname}", loc(t["sp"]), verdict, why)
+            # one obligation per distinct operation that can decide this exit (a spliced helper may propagate several)
+            groups = {}
+            for cz in causes:
+                groups.setdefault(_shown(b, cz[1]), []).append(cz)
+            if not groups:
+                groups = {"?": []}
+            for cname, cs_ in sorted(groups.items()):
+                verdict, why = classify_exit(b, body, cs_, src_results, leaving_vals, t)
+                ctx.ob("L1", b.defp, f"exit:{src}:{cname}", loc(cs_[0][2]["sp"] if cs_ and cs_[0][2].get("sp") else t["sp"]), verdict, why)
         ctx.floor("L1", f"classified exits of the {src} loop in {last_seg(b.root)}", 1, n_exit)
         # ---------------- L2 ---------------------------------------------------------------------
         for (blk, c, t) in b.calls():
@@ -162,11 +173,57 @@ def run(ctx):
                    f"a per-flow handshake/dial ({dial}) is awaited in the listener's own task: one stalled peer blocks every other flow of this service loop")
         # ---------------- L3 ---------------------------------------------------------------------
         for (blk, c, t) in b.calls():
-            if blk in body and c.target.startswith("octo_squirrel") and re.search(r"template::(tcp|quic)::(relay|accept_websocket_then_replay)$", c.target):
+            if blk in body and c.target.startswith("octo_squirrel") and _is_relay(prog, c.target):
                 spawned = any(n.endswith("task::spawn::spawn") for n in _direct_consumers(b, t["dest"][0]))
                 ctx.ob("L3", b.defp, f"relay-is-spawned:{last_seg(c.target)}", loc(t["sp"]), spawned, "the per-connection relay future is handed to tokio::spawn" if spawned else "the per-connection relay is awaited inside the accept loop")
     n_spawn = sum(1 for b in bodies for (_, c, _) in b.calls() if c.target.endswith("task::spawn::spawn"))
     ctx.floor("L3", "tokio::spawn sites", 6, n_spawn)
+
+
+CAUSE_PASS = ("Try::branch", "Result::map_err", "IntoFuture::into_future", "Future::poll", "Pin::new_unchecked", "core::future::get_context", "Pin::new",
+              "FromResidual::from_residual", "Result::map", "Into::into", "From::from")
+
+
+def failure_causes(b, local):
+    """the fallible operations whose failure can be the value tested at a loop exit: a backward walk that goes through `?` plumbing and
+    through the return of a spliced helper, follows the *error* route (residuals) and does not enter success values (`Ok(..)` / `Some(..)`
+    aggregates are not causes of a failure)"""
+    defs = b.defs()
+    seen, out, work = set(), [], [local]
+    while work:
+        l = work.pop()
+        if l in seen:
+            continue
+        seen.add(l)
+        ds = defs.get(l, [])
+        spliced = {id(d[2]) for d in ds if d[0] == "call" and len(d) > 3}
+        for d in ds:
+            if d[0] == "assign":
+                rv = d[3]["rv"]
+                if rv["k"] == "agg" and rv.get("variant") in ("Ok", "Some"):
+                    continue
+                for op in b.operands_of_rvalue(rv):
+                    q = op_place(op)
+                    if q is not None:
+                        work.append(q[0])
+            elif d[0] == "call":
+                t = d[2]
+                c = Callee(t["f"])
+                if len(d) > 3:
+                    continue      # a spliced call: its body is walked through the return assignment instead
+                if c.name in CAUSE_PASS:
+                    for a in t["args"]:
+                        q = op_place(a)
+                        if q is not None:
+                            work.append(q[0])
+                else:
+                    out.append((d[1], c, t))
+    return out
+
+
+def _is_relay(prog, target):
+    from .c01 import _relay_kind
+    return _relay_kind(prog, target) is not None
 
 
 def classify_exit(b, body, causes, src_results, leaving_vals, t):
